@@ -13,7 +13,9 @@ import (
 	"encoding/json"
 	"fmt"
 	"math/rand"
+	"os"
 	"path/filepath"
+	"regexp"
 	"sort"
 	"strconv"
 	"strings"
@@ -70,6 +72,11 @@ type scenario struct {
 	// family and the kind of deferred function that calls recover (same semantics in
 	// Unwind.tla, different code paths in the compiler and the run time).
 	V int
+	// Y selects suspension points (C02): 0 none, 1 every deferred closure starts by
+	// yielding to the scheduler (runtime.Gosched), 2 additionally every operation of
+	// every function body is preceded by a yield. A yield is a stuttering step of
+	// Unwind.tla: the prediction does not depend on Y.
+	Y int
 }
 
 // Rendering variants.
@@ -190,6 +197,8 @@ var zero = 0
 var one = 1
 var nilmap map[int]int
 
+func yield() { runtime.Gosched() }
+
 type recT struct{}
 
 func (recT) rec(k int) {
@@ -247,8 +256,13 @@ func pv(v any) int {
 
 `
 
-func renderOps(b *strings.Builder, v, n int, ops []Op) {
+var reDeferClosure = regexp.MustCompile(`defer func\(([^)]*)\) \{\n?`)
+
+func renderOps(b *strings.Builder, v, y, n int, ops []Op) {
 	for _, op := range ops {
+		if y == 2 {
+			b.WriteString("\tyield()\n")
+		}
 		switch op.Kind {
 		case "emit":
 			fmt.Fprintf(b, "\tprintln(\"e\", %d)\n", op.A)
@@ -302,7 +316,13 @@ func render(batch []*scenario) map[string]string {
 	for n, s := range batch {
 		for fi, ops := range s.P {
 			b.WriteString(fnDecl(s.V, n, fi+1))
-			renderOps(&b, s.V, n, ops)
+			var fb strings.Builder
+			renderOps(&fb, s.V, s.Y, n, ops)
+			body := fb.String()
+			if s.Y > 0 {
+				body = reDeferClosure.ReplaceAllString(body, "defer func($1) {\n\t\tyield()\n")
+			}
+			b.WriteString(body)
 			b.WriteString("\treturn\n}\n\n")
 			b.WriteString(fnExtra(s.V, n, fi+1))
 		}
@@ -579,6 +599,10 @@ func enumerate(c *core.Ctx, sc scenCfg, into map[string]*scenario) bool {
 
 // Run is the C08 check.
 func Run(c *core.Ctx, pool *gjs.Pool) {
+	if os.Getenv("VERIF_C08_YIELD") != "" { // development aid: the C02 part alone
+		RunYield(c, pool)
+		return
+	}
 	rng := rand.New(rand.NewSource(c.Seed))
 	c.Assumef("panic values are observed as (class, value number); the wording of run-time error messages beyond the identifying clause is not compared")
 	c.Assumef("panic(nil) is excluded (its meaning depends on the language version)")
@@ -644,5 +668,79 @@ func Run(c *core.Ctx, pool *gjs.Pool) {
 		if i%(len(list)/3+1) == 0 {
 			c.Sample(map[string]any{"family": json.RawMessage(s.raw)})
 		}
+	}
+}
+
+// RunYield is the part of C02 that concerns deferred calls, panics and recover
+// ("... pending deferred call ... including suspensions inside deferred functions
+// during a return or a panic"): families of UnwindScen.tla are rendered with
+// suspension points (scenario.Y) and must print what Unwind.tla predicts, in which
+// a suspension does not occur at all. Violations are reported for the property of
+// the calling check (C02).
+func RunYield(c *core.Ctx, pool *gjs.Pool) {
+	rng := rand.New(rand.NewSource(c.Seed + 77))
+	scens := map[string]*scenario{}
+	cfgs := []scenCfg{
+		{name: "yield-one-function", n: 1, l: []int{3}, ops: allOps},
+		{name: "yield-sim-3", n: 3, l: []int{3, 3, 3}, ops: allOps, sim: c.Pick(3000, 60000), depth: 40},
+	}
+	for _, sc := range cfgs {
+		if !enumerate(c, sc, scens) {
+			return
+		}
+	}
+	keys := make([]string, 0, len(scens))
+	for k := range scens {
+		keys = append(keys, k)
+	}
+	sort.Strings(keys)
+	rng.Shuffle(len(keys), func(i, j int) { keys[i], keys[j] = keys[j], keys[i] })
+	if max := c.Pick(1500, 60000); len(keys) > max {
+		keys = keys[:max]
+	}
+	list := make([]*scenario, len(keys))
+	for i, k := range keys {
+		list[i] = scens[k]
+		list[i].Y = 1 + rng.Intn(2)
+		c.Distinct("unwind-yield/" + k)
+	}
+	fails, nd := evalScenarios(c, pool, list)
+	c.Add("spec_guard_discards", nd)
+	c.Add("traces_validated_against_impl", len(list)-nd)
+	c.Add("evaluations", len(list))
+	c.Set("unwind_families_with_suspension_points", len(list))
+	// a failing family is re-evaluated without suspension points: the known finding is
+	// attributed only if the family is right there and a deferred call runs during a panic
+	var again []*scenario
+	for _, f := range fails {
+		d := *f.s
+		d.Y = 0
+		again = append(again, &d)
+	}
+	plainOK := map[string]bool{}
+	if len(again) > 0 {
+		fails2, _ := evalScenarios(c, pool, again)
+		bad := map[string]bool{}
+		for _, f := range fails2 {
+			bad[f.s.raw] = true
+		}
+		for _, s := range again {
+			plainOK[s.raw] = !bad[s.raw]
+		}
+	}
+	for _, f := range fails {
+		files := map[string]string{"scenario.json": f.s.raw + "\n", "yield_level.txt": strconv.Itoa(f.s.Y) + "\n", "predicted.txt": strings.Join(f.s.expected(), "\n") + "\nend=" + f.s.Out.End + "\n", "observed.txt": f.got.Raw + "\nend=" + f.got.End + " " + f.got.Msg + "\n"}
+		for n, content := range render([]*scenario{f.s}) {
+			files["prog/"+n] = content
+		}
+		pj, _ := json.Marshal(f.s.P)
+		var keys []string
+		raises := f.s.hasOp(func(o Op) bool {
+			return o.Kind == "panic" || o.Kind == "rte" || o.Kind == "goexit" || (o.Kind == "defer" && (o.D.Kind == "panic" || o.D.Kind == "repanic"))
+		})
+		if plainOK[f.s.raw] && raises && f.s.hasOp(func(o Op) bool { return o.Kind == "defer" }) {
+			keys = append(keys, "suspension_in_deferred_call_during_panic")
+		}
+		c.Report(core.Case{Keys: keys, Summary: fmt.Sprintf("defer/panic/recover family %s with suspension points (level %d): compiled program %s; without suspension points the same family prints the prediction: %v (native Go agrees with the specification)", pj, f.s.Y, f.why, plainOK[f.s.raw]), Files: files})
 	}
 }
